@@ -1180,7 +1180,7 @@ impl<T: TraceStorage> ChainProcess<T> {
                     crate::verif::json!({"ev": "ch_msg", "i": verif_id, "how": "init",
                         "msg": verif_msg(&msg)})
                 });
-                loop {
+                while draw < draws {
                     match msg {
                         // The remote end is dead
                         Err(TryRecvError::Disconnected) => {
